@@ -35,11 +35,10 @@ MANIFEST = {
     "signatures rejects as 'not defined' exactly when some variable that is local (assigned somewhere) and not a parameter — or neither "
     "assigned nor global — is read on a path from the entry before any assignment (real and dummy edges), using the C09 theorems for the "
     "analyses; in every later block the definedness test provably cannot fire and check_rows_match provably never sees rows with different "
-    "keys (the KeyError branch is unreachable); a BranchTypeError comes with two paths that give the variable different types. The model is "
+    "keys (the KeyError branch is unreachable); a BranchTypeError is raised iff (no variable being undefined) some variable reaches a block with two different types along two followed paths and is read afterwards (branchtype_iff: soundness and completeness of the BFS comparison). The model is "
     "tied to cfg_checker.py on every run: generated programs go through the real check(), the captured real CFG is replayed in the Lean "
     "model, and an independent path-enumeration oracle decides the property's literal statement on that CFG.",
-    "level_note": "Trusted: Lean kernel + 3 standard axioms; event abstraction of statements; CFG builder (C03). The converse for type "
-    "joins (every path-dependent type of a live variable is rejected) is established by the oracle correspondence only, not by a theorem.",
+    "level_note": "Trusted: Lean kernel + 3 standard axioms; event abstraction of statements; CFG builder (C03).",
     "technique": "Lean 4 proof (BFS invariant over block signatures on top of the C09 liveness theorems) + correspondence on captured real CFGs + path-enumeration oracle",
     "design_ref": "DESIGN.md §5 C08",
     "ready": True,
